@@ -479,6 +479,18 @@ def _check_avx(F, R):
             if c and c["p"].endswith("<impl [T]>::contains"):
                 lst = array_literal(F, ib, t["args"][0])
         if lst is None:
+            # `matches!(len, 0 | 1 | ...)` form: arms of a match on the parameter that yield true
+            swb = find_switch_on_param(F, ib, 2)
+            if swb is not None:
+                al, oth = arms(ib, swb)
+                lst = []
+                for vals_, tgt_ in al:
+                    reg_ = region_of(ib, tgt_)
+                    yes = any(s_["k"] == "=" and s_["p"] == [0] and s_["r"]["k"] == "use" and s_["r"]["o"].get("c", {}).get("v") == 1
+                              for x_ in reg_ for s_ in ib.blocks[x_]["s"])
+                    if yes:
+                        lst += list(vals_)
+        if lst is None:
             R.violation("table:avx:is_butterfly:%s" % label, ib.where(), "cannot read the literal list of %s" % ib.name)
             continue
         # construct_butterfly arms
